@@ -899,6 +899,11 @@ class Verifier:
                 if c.returns is not None:
                     result = I.coerce_value(result, self.types.parse(c.returns))
                 for st in c.post_setup:
+                    if st.startswith("call:"):
+                        # follow-up call on the post-state (two-call contracts): an escaping exception is a failed
+                        # obligation `<contract>/post-call:no-exception:<Class>`, not an engine limitation
+                        I.exec_ghost(st[5:], env, extra={"result": result}, raise_obl="%s/post-call:no-exception" % c.short)
+                        continue
                     I.exec_ghost(st, env, extra={"result": result}, skip_unbound=True)
                 for nm, src in c.ensures:
                     phi = I.eval_spec(src, env, extra={"result": result})
@@ -927,7 +932,7 @@ class Verifier:
             path.prove(I.eval_spec(src, env, extra=extra), "%s/post-exc:%s" % (c.short, nm), "post", where=src)
 
 
-def exec_ghost(self, st, env, extra=None, skip_unbound=False):
+def exec_ghost(self, st, env, extra=None, skip_unbound=False, raise_obl=None):
     node = ast.parse(st.strip()).body
     e2 = Env(env, env.module)
     if extra:
@@ -939,6 +944,9 @@ def exec_ghost(self, st, env, extra=None, skip_unbound=False):
     try:
         self.exec_block(node, e2)
     except PyRaise as pr:
+        if raise_obl is not None:
+            self.path.prove(z3.BoolVal(False), "%s:%s" % (raise_obl, pr.exc.cls), "raises", where=st)
+            raise PathEnd("follow-up call raised")
         if pr.exc.cls != "NameError" or not skip_unbound:
             raise Unsupported("ghost statement raised %s: %s" % (pr.exc.cls, st))
         # a ghost statement that mentions a local not bound on this path is skipped
